@@ -226,6 +226,19 @@ impl KeyBuilder for Kb {
         u64: core::borrow::Borrow<Q>,
         Q: core::hash::Hash + Eq + ?Sized,
     {
+        // histories with an odd index base use a builder that overrides `build_key` only and leaves
+        // `hash_conflict` at the trait's documented default ("or leave this method return 0"): every
+        // path of the cache must go through build_key
+        if INDEX_BASE.load(Ordering::Relaxed) % 2 == 1 {
+            return 0;
+        }
         self.pair(raw_u64(key)).1
+    }
+    fn build_key<Q>(&self, key: &Q) -> (u64, u64)
+    where
+        u64: core::borrow::Borrow<Q>,
+        Q: core::hash::Hash + Eq + ?Sized,
+    {
+        self.pair(raw_u64(key))
     }
 }
